@@ -5,7 +5,7 @@
    received equals ls -- this is the partial part of the claim.  Known finding F18b: import sends
    no ls notification. *)
 From WB Require Import Base.Str Base.Json Model.Key Model.Store Model.Entry Model.Core
-  Proofs.StoreFacts Proofs.TreeInv Proofs.C05Proof.
+  Spec.MapSpec Proofs.StoreFacts Proofs.TreeInv Proofs.C05Proof.
 
 Theorem C05_ls_exact :
   forall (V : Type) (n : node V) P, wfn n -> cleann n ->
